@@ -587,6 +587,10 @@ func c02Case(w *core.Worker, i int) {
 		return
 	}
 	args = append(csvqArgs("-q"), d.writeArgs()...)
+	if i%3 == 1 {
+		// colours are for results on a terminal (they may be switched on in the environment file): a table file is data
+		args = append(args, "--color")
+	}
 	res = core.RunProc(core.ProcOpts{Dir: dir, Args: append(args, fmt.Sprintf("CREATE TABLE `%s` AS SELECT * FROM %s", newFile, srcName)), Timeout: 60 * time.Second})
 	created := false
 	if res.Code != 0 {
@@ -609,6 +613,10 @@ func c02Case(w *core.Worker, i int) {
 		}
 		fa, fb := "two_a."+d.ext(), "two_b."+d.ext()
 		args = append(csvqArgs("-q"), d.writeArgs()...)
+		if i%3 == 1 {
+			// colours are for results on a terminal (they may be switched on in the environment file): a table file is data
+			args = append(args, "--color")
+		}
 		two := core.RunProc(core.ProcOpts{Dir: dir, Args: append(args, fmt.Sprintf("CREATE TABLE `%s` AS SELECT * FROM %s; CREATE TABLE `%s` (%s) AS SELECT * FROM %s;", fa, srcName, fb, strings.Join(up, ", "), srcName)), Timeout: 60 * time.Second})
 		if two.Code == 0 {
 			for _, f := range []struct {
